@@ -457,6 +457,13 @@ class AbstractPool:
             worker._last_pickled_state = new_pickled_state
             return units, new_pickled_state, 0
 
+        except Exception:
+            # The worker compiles on its live copy of the state and may have
+            # modified it before the call failed; it no longer matches the
+            # pickled state we hold, so make the next call transfer it again.
+            worker._last_pickled_state = None
+            raise
+
         finally:
             # Put the worker at the end of the queue so that the chance
             # of reusing it later (and maximising the chance of
@@ -1619,6 +1626,11 @@ class MultiTenantPool(FixedPool):
             )
             worker._last_pickled_state = new_pickled_state
             return units, new_pickled_state, 0
+
+        except Exception:
+            # See AbstractPool.compile_in_tx().
+            worker._last_pickled_state = None
+            raise
 
         finally:
             self._release_worker(worker, put_in_front=False)
